@@ -569,8 +569,9 @@ fn split_cases(rng: &mut Rng, n: usize, stats: &mut Stats) {
             Ok(x) => (x, false),
             Err(_) => (None, true),
         };
-        // oracle: for every source file the produced ranges are non-empty, and sorted by start
-        // they are contiguous from range start to range end; at most `np` groups
+        // oracle: for every source file the produced ranges, sorted by start, are contiguous from
+        // range start to range end, and non-empty (the order-preserving mode may emit empty
+        // ranges when a file has fewer bytes than groups: they scan nothing); at most `np` groups
         let mut ok = !panic;
         let mut why = String::new();
         if let Some(gs) = &res {
@@ -590,7 +591,7 @@ fn split_cases(rng: &mut Rng, n: usize, stats: &mut Stats) {
                 rs.sort();
                 let mut pos = *a;
                 for (x, y) in &rs {
-                    if *x != pos || (*y <= *x && !(preserve && a == b)) {
+                    if *x != pos || *y < *x || (*y == *x && !preserve) {
                         ok = false;
                         why = format!("file {k} [{a},{b}) split into {:?}", rs);
                     }
